@@ -121,6 +121,50 @@ func ruleR192(c *Ctx) {
 			if cal := Callee(info, call); cal != nil && cal.Pkg() != nil && cal.Pkg().Path() == "slices" && (cal.Name() == "IndexFunc" || cal.Name() == "Index") {
 				okFound = true
 			}
+			// a search helper of the package: a range loop over the table that stores the loop key into the variable it returns
+			if cal := Callee(info, call); cal != nil && cal.Pkg() != nil {
+				if hp := c.Pkgs[cal.Pkg().Path()]; hp != nil && strings.HasPrefix(cal.Pkg().Path(), modPath) {
+					if hd := findFuncDecl(hp, cal); hd != nil && hd.Body != nil {
+						hinfo := hp.TypesInfo
+						var retObj types.Object
+						nRet := 0
+						inspectNoLit(hd.Body, func(y ast.Node) bool {
+							if r, ok := y.(*ast.ReturnStmt); ok && len(r.Results) == 1 {
+								nRet++
+								if id, ok := ast.Unparen(r.Results[0]).(*ast.Ident); ok {
+									retObj = hinfo.ObjectOf(id)
+								}
+							}
+							return true
+						})
+						if nRet == 1 && retObj != nil {
+							ast.Inspect(hd.Body, func(y ast.Node) bool {
+								rs, ok := y.(*ast.RangeStmt)
+								if !ok {
+									return true
+								}
+								kid, ok := rs.Key.(*ast.Ident)
+								if !ok {
+									return true
+								}
+								ast.Inspect(rs.Body, func(z ast.Node) bool {
+									a2, ok := z.(*ast.AssignStmt)
+									if !ok || len(a2.Lhs) != 1 || len(a2.Rhs) != 1 {
+										return true
+									}
+									l, ok1 := a2.Lhs[0].(*ast.Ident)
+									r, ok2 := ast.Unparen(a2.Rhs[0]).(*ast.Ident)
+									if ok1 && ok2 && hinfo.ObjectOf(l) == retObj && hinfo.ObjectOf(r) == hinfo.ObjectOf(kid) {
+										okFound = true
+									}
+									return true
+								})
+								return true
+							})
+						}
+					}
+				}
+			}
 		}
 		if r, ok := enclosingLoop(c, as, fd).(*ast.RangeStmt); ok {
 			if kid, ok := r.Key.(*ast.Ident); ok {
